@@ -36,7 +36,6 @@ fn c01_pow_f13_fixed_exponents() {
     assert!(x.pow([6u64]) == x6);
     assert!(x.pow([12u64]) == x12);
     assert!(x.pow([13u64]) == x12 * x);
-    assert!(x.pow([0u64, 0u64]) == F13::one());
 }
 
 /// bytes -> field, reduced modulo p: all strings of length <= 3, both endiannesses; 8-bit modulus (bit length multiple of 8)
